@@ -126,7 +126,7 @@ pub fn c07(cx: &Cx) -> i32 {
     crate::misc::mentions_param_rule(cx, &mut rep);
     crate::misc::wcb_rule(cx, &mut rep);
     ctor_kind_rule(cx, &mut rep, &["Clone"]);
-    crate::misc::span_hygiene_rule(cx, &mut rep);
+    crate::misc::span_hygiene_rule(cx, &mut rep, &["Clone"]);
     // ---- struct
     if let Some(r) = role(cx, "struct", "Clone") {
         let run = run(&cx.ix, r, None, CollMode::Summary, &[]);
@@ -275,7 +275,7 @@ pub fn c08(cx: &Cx) -> i32 {
     crate::misc::mentions_param_rule(cx, &mut rep);
     crate::misc::wcb_rule(cx, &mut rep);
     ctor_kind_rule(cx, &mut rep, &["BinaryOp", "UnaryOp"]);
-    crate::misc::span_hygiene_rule(cx, &mut rep);
+    crate::misc::span_hygiene_rule(cx, &mut rep, &["BinaryOp", "AssignOp", "UnaryOp"]);
     crate::misc::expand_self_rule(cx, &mut rep);
     let mut checked_ops = 0;
     for (variant, table, nforms) in [("BinaryOp", &BINOPS[..], 4usize), ("AssignOp", &BINOPS[..], 2), ("UnaryOp", &UNOPS[..], 2)] {
@@ -437,7 +437,7 @@ pub fn c10(cx: &Cx) -> i32 {
     // the derived impl of a generic type stands on the default bounds: which field types get one, and that they reach the impl
     crate::misc::mentions_param_rule(cx, &mut rep);
     crate::misc::wcb_rule(cx, &mut rep);
-    crate::misc::span_hygiene_rule(cx, &mut rep);
+    crate::misc::span_hygiene_rule(cx, &mut rep, &["Debug"]);
     crate::misc::helper_name_rule(cx, &mut rep, "HelperAttributeForDebug", "debug");
     for kind in ["struct", "enum"] {
         let Some(r) = role(cx, kind, "Debug") else { rep.fail("roles", kind, "Debug", "role not found", "-", json!({})); continue };
@@ -613,7 +613,7 @@ pub fn ctor_kind_rule(cx: &Cx, rep: &mut Report, variants: &[&str]) {
 // =============================================================================================== C18
 pub fn c18(cx: &Cx) -> i32 {
     let mut rep = cx.report("C18");
-    crate::misc::span_hygiene_rule(cx, &mut rep);
+    crate::misc::span_hygiene_rule(cx, &mut rep, &["Deref", "DerefMut"]);
     for variant in ["Deref", "DerefMut"] {
         let Some(r) = role(cx, "struct", variant) else { rep.fail("roles", "struct", variant, "role not found", "-", json!({})); continue };
         for n in [0usize, 1, 2, 3] {
@@ -725,7 +725,7 @@ pub fn c11(cx: &Cx) -> i32 {
     crate::misc::mentions_param_rule(cx, &mut rep);
     crate::misc::wcb_rule(cx, &mut rep);
     ctor_kind_rule(cx, &mut rep, &["Default"]);
-    crate::misc::span_hygiene_rule(cx, &mut rep);
+    crate::misc::span_hygiene_rule(cx, &mut rep, &["Default"]);
     consulted_rule(cx, &mut rep, &["Default"]);
     crate::misc::helper_name_rule(cx, &mut rep, "HelperAttributeForDefault", "default");
     crate::misc::default_placeholder_rule(cx, &mut rep);
